@@ -333,6 +333,363 @@ def op_pipeline(op):
     return out
 
 
+# ------------------------------------------------------------------ invocation routes (API / project file / CLI flags)
+def install_click():
+    """click is absent.  Extend the shim module IN THIS PROCESS with the decorator API that xsdata/cli.py and
+    xsdata/utils/click.py use, so that the REAL command declarations (model_options(GeneratorOutput): option names,
+    flag pairs, destinations, types, EnumChoice) and the REAL body of cli.generate run.  What is a stand-in (modelled, not
+    verified) is click's own argv parsing, re-implemented below for the option kinds the xsdata CLI declares."""
+    import click
+
+    if hasattr(click, "_xv_installed"):
+        return click
+
+    class ParamType:
+        name = "param"
+
+        def convert(self, value, param=None, ctx=None):
+            return value
+
+        def fail(self, message, param=None, ctx=None):
+            raise click.ClickException(message)
+
+    class Choice(ParamType):
+        def __init__(self, choices, case_sensitive=True):
+            self.choices = list(choices)
+
+        def convert(self, value, param=None, ctx=None):
+            if value not in self.choices:
+                raise click.ClickException("invalid choice: %s" % (value,))
+            return value
+
+    class Path(ParamType):
+        def __init__(self, **kw):
+            pass
+
+    class Param:
+        def __init__(self, kind, names, **kw):
+            self.kind, self.decls, self.kw = kind, list(names), kw
+            self.is_flag = bool(kw.get("is_flag"))
+            self.type = kw.get("type")
+            self.default = kw.get("default")
+            plain = [n for n in names if not n.startswith("-")]
+            longs = [n for n in names if n.startswith("--")]
+            self.on, self.off = [], []
+            for n in names:
+                if not n.startswith("-"):
+                    continue
+                if "/" in n:
+                    a, b = n.split("/", 1)
+                    self.on.append(a)
+                    self.off.append(b)
+                else:
+                    self.on.append(n)
+            if kind == "argument":
+                self.dest = names[0]
+            elif plain:
+                self.dest = plain[-1]
+            else:
+                self.dest = longs[0].split("/")[0].lstrip("-").replace("-", "_")
+
+    class Context:
+        def __init__(self):
+            self.closers = []
+
+        def call_on_close(self, f):
+            self.closers.append(f)
+            return f
+
+    class Command:
+        def __init__(self, name, callback):
+            self.name, self.callback = name, callback
+            self.params = list(reversed(getattr(callback, "__click_params__", [])))
+
+        def parse(self, argv):
+            values = {p.dest: (False if (p.is_flag and p.default is None and not p.off and p.kind == "option" and p.kw.get("default", None) is False) else p.default)
+                      for p in self.params}
+            positional = [p for p in self.params if p.kind == "argument"]
+            argv = list(argv)
+            while argv:
+                a = argv.pop(0)
+                if a.startswith("-") and a != "-":
+                    if "=" in a and a.startswith("--"):
+                        a, v = a.split("=", 1)
+                        argv.insert(0, v)
+                    hit = None
+                    for p in self.params:
+                        if p.kind != "option":
+                            continue
+                        if a in p.on:
+                            hit = (p, True)
+                        elif a in p.off:
+                            hit = (p, False)
+                    if hit is None:
+                        raise click.ClickException("No such option: " + a)
+                    p, on = hit
+                    if p.is_flag:
+                        values[p.dest] = on
+                    else:
+                        if not argv:
+                            raise click.ClickException("Option %s requires an argument" % a)
+                        raw = argv.pop(0)
+                        t = p.type
+                        if isinstance(t, ParamType):
+                            values[p.dest] = t.convert(raw, p, None)
+                        elif t is None:
+                            values[p.dest] = raw
+                        else:
+                            values[p.dest] = t(raw)
+                else:
+                    if not positional:
+                        raise click.ClickException("Got unexpected extra argument (%s)" % a)
+                    values[positional.pop(0).dest] = a
+            for p in positional:
+                if p.kw.get("required") and values.get(p.dest) is None:
+                    raise click.ClickException("Missing argument " + p.dest)
+            return values
+
+        def main(self, argv):
+            return self.callback(**self.parse(argv))
+
+        __call__ = main
+
+    class Group(Command):
+        def __init__(self, name, callback):
+            super().__init__(name, callback)
+            self.commands = {}
+
+        def command(self, name=None, **kw):
+            def deco(f):
+                cmd = Command(name or f.__name__, f)
+                self.commands[cmd.name] = cmd
+                return cmd
+            return deco
+
+    def _param(kind):
+        def maker(*names, **kw):
+            def deco(f):
+                target = f.callback if isinstance(f, Command) else f
+                lst = getattr(target, "__click_params__", None)
+                if lst is None:
+                    lst = []
+                    target.__click_params__ = lst
+                lst.append(Param(kind, names, **kw))
+                if isinstance(f, Command):
+                    f.params = list(reversed(lst))
+                return f
+            return deco
+        return maker
+
+    def group(name=None, **kw):
+        def deco(f):
+            return Group(name or f.__name__, f)
+        return deco
+
+    def passthrough(*a, **kw):
+        def deco(f):
+            return f
+        return deco
+
+    click.ParamType, click.Choice, click.Path = ParamType, Choice, Path
+    click.Command, click.Context, click.Parameter, click.Group = Command, Context, Param, Group
+    click.option, click.argument = _param("option"), _param("argument")
+    click.group, click.version_option = group, passthrough
+    click.pass_context = lambda f: f
+    click.command = lambda name=None, **kw: (lambda f: Command(name or f.__name__, f))
+    click._xv_installed = True
+    return click
+
+
+def plain_config(x):
+    import dataclasses
+    if dataclasses.is_dataclass(x):
+        return {f.name: plain_config(getattr(x, f.name)) for f in dataclasses.fields(x) if f.init}
+    if isinstance(x, (list, tuple)):
+        return [plain_config(v) for v in x]
+    if hasattr(x, "value") and x.__class__.__module__.startswith("xsdata"):
+        return x.value
+    if isinstance(x, re.Pattern):
+        return x.pattern
+    return x
+
+
+_ENUM_KEYS = {"structure_style": "StructureStyle", "docstring_style": "DocstringStyle"}
+
+
+def _conv(key, value):
+    from xsdata.models import config as C
+    leaf = key.split(".")[-1]
+    return getattr(C, _ENUM_KEYS[leaf])(value) if leaf in _ENUM_KEYS else value
+
+
+def api_config(options):
+    """Programmatic route: the configuration objects are built with their constructors."""
+    from xsdata.models import config as C
+    top, fmt, cf = {}, {}, {}
+    for k, v in options.items():
+        if k.startswith("format."):
+            fmt[k[7:]] = v
+        elif k.startswith("compound_fields."):
+            cf[k[16:]] = v
+        else:
+            top[k] = _conv(k, v)
+    if fmt:
+        top["format"] = C.OutputFormat(**fmt)
+    if cf:
+        top["compound_fields"] = C.CompoundFields(**cf)
+    return C.GeneratorConfig(output=C.GeneratorOutput(**top))
+
+
+def project_file_text(options):
+    """A project file that states exactly these options (written by the real GeneratorConfig.write from an object
+    whose attributes were set one by one, i.e. WITHOUT the constructors' conflict resolution)."""
+    from xsdata.models import config as C
+    cfg = C.GeneratorConfig()
+    for k, v in options.items():
+        obj = cfg.output
+        parts = k.split(".")
+        for name in parts[:-1]:
+            obj = getattr(obj, name)
+        setattr(obj, parts[-1], _conv(k, v))
+    buf = io.StringIO()
+    C.GeneratorConfig.write(buf, cfg)
+    return buf.getvalue()
+
+
+def read_project_file(text):
+    import tempfile
+    from pathlib import Path
+    from xsdata.models.config import GeneratorConfig
+    with tempfile.TemporaryDirectory(prefix="xv_c12_") as d:
+        p = Path(d) / ".xsdata.xml"
+        p.write_text(text, encoding="utf-8")
+        return GeneratorConfig.read(p)
+
+
+def cli_argv(generate_cmd, options):
+    """Command-line spelling of the options, looked up in the REAL option table of `xsdata generate`."""
+    argv = []
+    for k, v in options.items():
+        dest = k.replace(".", "__")
+        ps = [p for p in generate_cmd.params if p.kind == "option" and p.dest == dest]
+        if len(ps) != 1:
+            raise KeyError("xsdata generate has no option for " + k)
+        p = ps[0]
+        longs = [n for n in p.on if n.startswith("--")] or p.on
+        if p.is_flag:
+            argv.append(longs[0] if v else [n for n in p.off if n.startswith("--")][0])
+        else:
+            argv += [longs[0], str(v)]
+    return argv
+
+
+def cli_config(sources, argv, project_xml):
+    """Run the REAL xsdata.cli.generate (option declarations, kwargs -> params, GeneratorConfig.read of the project
+    file in the cwd, config.output.update, resolve_source) up to the point where it starts the transformer."""
+    import contextlib
+    import tempfile
+    import warnings
+    from pathlib import Path
+
+    install_click()
+    import xsdata.cli as cli
+
+    captured = {}
+
+    class Capture:
+        def __init__(self, config):
+            captured["config"] = config
+
+        def process(self, uris, cache=False):
+            captured["uris"] = list(uris)
+
+    old_rt, old_cwd = cli.ResourceTransformer, os.getcwd()
+    with tempfile.TemporaryDirectory(prefix="xv_c12_cli_") as d:
+        proj, src = Path(d) / "proj", Path(d) / "proj" / "schemas"
+        src.mkdir(parents=True)
+        for name, text in sources.items():
+            f = src / name
+            f.parent.mkdir(parents=True, exist_ok=True)
+            f.write_text(text, encoding="utf-8")
+        if project_xml is not None:
+            (proj / ".xsdata.xml").write_text(project_xml, encoding="utf-8")
+        try:
+            os.chdir(proj)
+            cli.ResourceTransformer = Capture
+            with contextlib.redirect_stdout(io.StringIO()), contextlib.redirect_stderr(io.StringIO()), warnings.catch_warnings():
+                warnings.simplefilter("ignore")
+                cli.generate.main(["schemas", "--recursive"] + list(argv))
+        finally:
+            cli.ResourceTransformer = old_rt
+            os.chdir(old_cwd)
+        base = src.resolve().as_uri() + "/"
+        captured["uris"] = [u[len(base):] if u.startswith(base) else u for u in captured.get("uris", [])]
+    return captured
+
+
+def generate_with(config, sources, timeout=60):
+    """The real pipeline with a prebuilt configuration object."""
+    import copy
+
+    import codegen_run
+    from codegen_run import CodegenRun
+
+    old = codegen_run.build_config
+    codegen_run.build_config = lambda options, ignored=None: copy.deepcopy(config)
+    try:
+        with CodegenRun(sources, {}, None, timeout) as run:
+            res = run.fill(("source",))
+            files = {}
+            for rel in res.get("files", []):
+                with open(os.path.join(run.out_dir, rel), encoding="utf-8") as f:
+                    files[rel] = f.read()
+    finally:
+        codegen_run.build_config = old
+    err = res.get("error")
+    return {"status": res["status"], "error_type": None if err is None else err["type"],
+            "error": None if err is None else err["message"][:300], "files": files}
+
+
+def op_routes(op):
+    """Same sources, same options, four invocation routes: API objects / project file / CLI flags without a project
+    file / project file + CLI flags.  Returns the four configurations and (optionally) the four generation results."""
+    install_click()
+    import xsdata.cli as cli
+
+    options = op["options"]
+    file_keys = [k for k in op.get("file_keys", []) if k in options]
+    in_file = {k: options[k] for k in file_keys}
+    # a flag may also override a value of the project file
+    in_file.update(op.get("file_overridden") or {})
+    flags = {k: v for k, v in options.items() if k not in file_keys or k in (op.get("file_overridden") or {})}
+    out = {"argv": None, "cfg": {}, "uris": None, "errors": {}}
+    cfgs = {}
+
+    def attempt(name, f):
+        try:
+            cfgs[name] = f()
+            out["cfg"][name] = plain_config(cfgs[name])
+        except BaseException as e:  # noqa
+            out["errors"][name] = exc(e)
+
+    attempt("api", lambda: api_config(options))
+    attempt("file", lambda: read_project_file(project_file_text(options)))
+    argv_all = cli_argv(cli.generate, options)
+    out["argv"] = argv_all
+
+    def via_cli(argv, xml):
+        cap = cli_config(op["sources"], argv, xml)
+        out["uris"] = cap.get("uris")
+        return cap["config"]
+
+    attempt("cli", lambda: via_cli(argv_all, None))
+    attempt("cli_file", lambda: via_cli(cli_argv(cli.generate, flags), project_file_text(in_file)))
+    out["expected_uris"] = sorted(op["sources"])
+    if op.get("generate"):
+        out["out"] = {name: generate_with(cfg, op["sources"]) for name, cfg in cfgs.items()}
+    return out
+
+
 def op_config_roundtrip(op):
     """GeneratorConfig built from options -> write -> text -> read: are they equal?"""
     import dataclasses
@@ -371,7 +728,7 @@ def op_config_roundtrip(op):
 
 OPS = {"scc": op_scc, "topo": op_topo, "clusters": op_clusters, "class_list": op_class_list, "types": op_types,
        "sort_types_direct": op_sort_types_direct, "reset": op_reset, "imports": op_imports, "resolver": op_resolver, "pipeline": op_pipeline,
-       "config_roundtrip": op_config_roundtrip}
+       "config_roundtrip": op_config_roundtrip, "routes": op_routes}
 
 
 def main():
